@@ -3,6 +3,7 @@ incomplete return), the connection loop keeps the buffer on 'need more data', en
 decoder agree on the type-byte table."""
 from ..cfg import Body, name_matches, const_int, const_str, lits_strings
 from ..report import where
+from .. import orderdom as od
 from .. import typestate
 
 LEVEL = "other"
@@ -189,6 +190,71 @@ def run(ctx, F, cg):
             ctx.violation("R20c", "encoder-byte-not-decoded|" + c, where(dec), "encode emits type byte %r that decode does not dispatch on" % c)
     else:
         ctx.ok("R20c", "type-byte-table", "encoder bytes %s all dispatched by the decoder (%s)" % (sorted(type_bytes), sorted(dec_bytes)))
+    # ---- R20f: "need more data" is decided by an exact test or propagated ------------------------------------------
+    ctx.rule("R20f", "the parser reports Incomplete only (a) because a sub-parse reported it (the None / Incomplete side of a sub-parse result), or (b) on the failing side of a comparison of the available length with exactly the number of bytes it goes on to take (the bound reappears as a slice bound on the success side) — an estimate such as `elements * 4` declares complete frames made of 3-byte elements incomplete for ever")
+    n_inc = 0
+    for p_, r_ in sorted(F.fns.items()):
+        if not p_.startswith("samyama::protocol::resp::") or "::tests::" in p_:
+            continue
+        m_ = F.mir(p_)
+        if not m_:
+            continue
+        b_ = Body(m_, r_)
+        incs = [(i, line) for i, j, pl, rv, line, exp in b_.stmts() if rv[0] == "agg" and rv[1].endswith("RespError::Incomplete")]
+        k_ = 0
+        for blk, line in incs:
+            n_inc += 1
+            short = p_.rsplit("::", 1)[-1]
+            inst = "%s|incomplete|%d" % (short, k_)
+            k_ += 1
+            # deciding switch: the closest dominating switch one of whose sides does not reach this block
+            dec = None
+            for i in sorted(b_.live_blocks(), reverse=True):
+                t = b_.blocks[i]["t"]
+                if t[0] != "switch" or t[1][0] == "k" or not b_.dominates(i, blk) or i == blk:
+                    continue
+                if any(blk not in b_.reachable(s_, avoid={i}) for s_ in b_.succ(i)):
+                    dec = (i, t)
+                    break
+            if dec is None:
+                ctx.violation("R20f", inst + "|unconditional", where(r_, line), "%s reports Incomplete unconditionally" % short)
+                continue
+            i, t = dec
+            ds = b_.defs().get(t[1][1][0], [])
+            if len(ds) == 1 and ds[0][0] == "stmt" and ds[0][4][0] == "discr":
+                srcl = ds[0][4][1][0]
+                og = b_.origins(srcl, through_calls=lambda cc: [0] if cc.path.rsplit("::", 1)[-1] in ("branch",) else None)
+                sub = [o[1].path.rsplit("::", 1)[-1] for o in og if o[0] == "call" and o[1].path.startswith("samyama::protocol::resp::")]
+                if sub:
+                    ctx.ok("R20f", inst, "propagates the outcome of %s" % sub[0])
+                    continue
+            e = od.expr_of(b_, t[1])
+            if e[0] == "cmp":
+                sides = [e[2], e[3]]
+                lens = [x for x in sides if "len" in od.show(x) or "PtrMetadata" in od.show(x)]
+                bounds = [x for x in sides if x not in lens]
+                if lens and bounds:
+                    btxt = od.show(bounds[0])
+                    # the same bound used as a slice end / advance amount in this function
+                    used = False
+                    for c in b_.calls():
+                        if c.path.rsplit("::", 1)[-1] in ("index", "index_mut", "advance", "split_to", "split_at", "get"):
+                            for a in c.args[1:]:
+                                if a[0] != "k":
+                                    for d in b_.defs().get(a[1][0], []):
+                                        if d[0] == "stmt" and d[4][0] == "agg":
+                                            for o in d[4][2]:
+                                                if od.show(od.expr_of(b_, o)) == btxt:
+                                                    used = True
+                                    if od.show(od.expr_of(b_, a)) == btxt:
+                                        used = True
+                    if used:
+                        ctx.ok("R20f", inst, "available length compared with %s, which is then taken" % btxt)
+                    else:
+                        ctx.violation("R20f", inst + "|estimated-bound", where(r_, line), "%s reports Incomplete when the available length is below %s, but never takes exactly that many bytes: the bound is an estimate, and a complete frame smaller than the estimate is never decoded (nor anything pipelined behind it)" % (short, btxt))
+                    continue
+            ctx.violation("R20f", inst + "|unrecognised-test", where(r_, line), "%s reports Incomplete on a test the rule does not recognise (%s)" % (short, od.show(e)))
+    ctx.floor("R20f", "constructions of RespError::Incomplete in the parser", n_inc, 2)
     return ("Decided: the structural clause of chunking-safety — a decoder function never consumes from the connection buffer on a path "
             "that then reports 'incomplete' (so a retry after more bytes sees the same prefix), the connection loop keeps the buffer and "
             "answers each decoded frame, and the encoder/decoder type-byte tables agree. Not decided: byte-level equality of "
